@@ -99,9 +99,11 @@ def bool_ifexp(t: ast.AST) -> ast.AST:
     `if c: return False; return d` reads `False if c else d`):  False if c else d = not c and d | True if c else d = c or d |
     d if c else False = c and d | d if c else True = not c or d"""
     if isinstance(t, ast.UnaryOp) and isinstance(t.op, ast.Not):
-        return ast.copy_location(ast.UnaryOp(op=ast.Not(), operand=bool_ifexp(t.operand)), t)
+        x = bool_ifexp(t.operand)
+        return t if x is t.operand else ast.copy_location(ast.UnaryOp(op=ast.Not(), operand=x), t)
     if isinstance(t, ast.BoolOp):
-        return ast.copy_location(ast.BoolOp(op=t.op, values=[bool_ifexp(v) for v in t.values]), t)
+        vs = [bool_ifexp(v) for v in t.values]
+        return t if all(a is b for a, b in zip(vs, t.values)) else ast.copy_location(ast.BoolOp(op=t.op, values=vs), t)
     if isinstance(t, ast.IfExp):
         c, a, b = bool_ifexp(t.test), bool_ifexp(t.body), bool_ifexp(t.orelse)
         neg = ast.UnaryOp(op=ast.Not(), operand=c)
@@ -450,9 +452,18 @@ class RelEval:
             sub = RelEval(self.ctx, h, params[0], self.leaf_helper_of)
             cfg = cfg_of(h)
             rets = [n for n in walk_no_nested(h.node) if isinstance(n, ast.Return) and n.value is not None]
-            if not rets:
-                return None
+            yields = [n for n in walk_no_nested(h.node) if isinstance(n, (ast.Yield, ast.YieldFrom))]
             total: Paths = {}
+            if yields and not rets:
+                for y in yields:            # a generator: the union of what it yields
+                    yn = cfg.node_containing(y)
+                    if yn is None or y.value is None:
+                        return None
+                    total = _union(total, sub.contribution(yn, ast.List(elts=[y.value], ctx=ast.Load()) if isinstance(y, ast.Yield)
+                                                           else y.value, None))
+                return total
+            if not rets or yields:
+                return None
             for r in rets:
                 total = _union(total, sub.contribution(cfg.node_of(r), r.value, None))
             return total
@@ -917,6 +928,13 @@ def bind_args(call: ast.Call, callee: Func) -> Dict[str, ast.AST]:
     for k in call.keywords:
         if k.arg in params:
             out[k.arg] = k.value
+    # parameters left out at the call take their default (`connect(a, b)` with `units: float = 0`)
+    a = getattr(callee.node, 'args', None)
+    if a is not None and a.defaults and not any(isinstance(x, ast.Starred) for x in call.args):
+        pos = [x.arg for x in a.posonlyargs + a.args]
+        for name, dflt in zip(pos[len(pos) - len(a.defaults):], a.defaults):
+            if name in params and name not in out:
+                out[name] = dflt
     return out
 
 
